@@ -9,7 +9,7 @@ M = "aiortc.rtcdatachannel"
 klass(f"{M}:RTCDataChannel",
       fields={"__bufferedAmount": "int", "__bufferedAmountLowThreshold": "int", "__readyState": "str", "__id": "opt[int]",
               "__parameters": "RTCDataChannelParameters", "__transport": "any", "__send_open": "bool"},
-      ghost_fields={"emitted": "list[str]"})
+      ghost_fields={"emitted": "list[str]", "message_data": "list[bytes]", "message_is_text": "list[bool]"})
 
 klass(f"{M}:RTCDataChannelParameters",
       fields={"label": "str", "maxPacketLifeTime": "opt[int]", "maxRetransmits": "opt[int]", "ordered": "bool",
